@@ -82,6 +82,14 @@ def main():
             return
         for c in info.classes:
             out['classes'][c] = out['classes'].get(c, 0) + 1
+        if fam.engine == 'sim':
+            from vf import detsched as _ds
+
+            if _ds.CASE_STATS['flip_points']:
+                out['classes']['sched:timed_wait_expiry_race'] = out['classes'].get('sched:timed_wait_expiry_race', 0) + 1
+            if _ds.CASE_STATS['flips_taken']:
+                out['classes']['sched:timed_wait_expired_first'] = out['classes'].get('sched:timed_wait_expired_first', 0) + 1
+            _ds.CASE_STATS['flip_points'] = _ds.CASE_STATS['flips_taken'] = 0
         for k, v in info.metrics.items():
             if k not in out['metrics'] or v > out['metrics'][k]:
                 out['metrics'][k] = v
